@@ -78,6 +78,9 @@ def run(chk):
         nb = mb.nbin
         label = dict(cfg=ci, **{k: v for k, v in cf.items()}, N0=N0)
         chk.note_distinct(label)
+        if not chk.samples:
+            chk.samples.append(dict(kind="shortcut vs full model", case=label, age=float(pop.age),
+                                    N_BH_full=[float(x) for x in np.asarray(full.Nr.BH[0])[:4]]))
         # ---- oracle: agreement with the full model -------------------------------------------
         popr = emf.InitialBHPopulation.from_IMF(imf, cf["nbins"], cf["feh"], N0=N0, natal_kicks=False, **kw)
         a0, a1, a2 = map(float, full._tms_constants)
@@ -266,6 +269,35 @@ def run(chk):
                      dict(max_dN=float(dN_.max()), N_short=float(po_.N.sum()), N_full=float(fu_.Nr.BH[0].sum()), age=float(po_.age)))
     chk.correspondence("bh_field (1e-9) vs the captured nested _derivs_BHs on arbitrary (t, y)", ncase, dis)
     # ---- from_BHMF ------------------------------------------------------------------------------------
+    def one_bhmf(brk, sl, nb_, N0, ksets):
+        label = dict(m_breaks=brk, a_slopes=sl, nbins=nb_, N0=N0)
+        chk.note_distinct(label)
+        try:
+            p = emf.InitialBHPopulation.from_BHMF(brk, sl, nb_, -1.0, N0=N0, natal_kicks=False)
+        except Exception as e:  # noqa
+            wdmax = float(ifmr.IFMR(-1.0).WD_mf.upper)
+            chk.fail("a population can be built directly from any BH mass function", label, dict(error=type(e).__name__),
+                     first_break_above_wd=bool(brk[0] > wdmax))
+            return
+        chk.count("from_BHMF built")
+        if np.any((p.N > 0) & (p.N < 0.1)):
+            chk.count("from_BHMF built with a bin holding a non-zero number below the 0.1-object kick threshold")
+        if abs(p.N.sum() - N0) > 1e-9 * N0:
+            chk.fail("from_BHMF: numbers sum to N0", label, float(p.N.sum()))
+        ed = np.r_[p.bins.lower, p.bins.upper[-1]]
+        if ed[0] != brk[0] or ed[-1] != brk[-1] or not all(np.any(ed == b) for b in brk) or len(p.N) != sum(nb_):
+            chk.fail("from_BHMF: bins have the requested edges", label, ed.tolist())
+        for kset in ksets:
+            try:
+                pk = emf.InitialBHPopulation.from_BHMF(brk, sl, nb_, -1.0, N0=N0, natal_kicks=True, **kset)
+            except Exception as e:  # noqa
+                chk.fail("kicks only remove BHs, by exactly the reported kicked mass", dict(label, kicks=kset), dict(error=type(e).__name__, msg=str(e)[:80]))
+                continue
+            chk.count("from_BHMF with kicks (%s)" % kset.get("kick_method", "maxwellian"))
+            if np.any(pk.M > p.M * (1 + 1e-12)) or np.any(pk.N > p.N * (1 + 1e-12)) or abs((p.M.sum() - pk.M.sum()) - pk._kicked_M) > 1e-9 * max(p.M.sum(), 1e-300):
+                chk.fail("kicks only remove BHs, by exactly the reported kicked mass", dict(label, kicks=kset),
+                         dict(removed=float(p.M.sum() - pk.M.sum()), reported=float(pk._kicked_M)))
+
     for _ in range(8 if chk.tier == "quick" else 60):
         lo = rng.choice([5.0, 3.0, 0.5, 1.0, 10.0])
         brk = [lo, lo * rng.uniform(2, 5), lo * rng.uniform(6, 20)]
@@ -276,32 +308,21 @@ def run(chk):
             # sparse populations: many bins hold a non-zero number below the 0.1-object threshold of the kick routine (left untouched by it)
             nb_ = [rng.randint(6, 14), rng.randint(6, 14)]
             N0 = float(rng.choice([1.0, 5.0, 25.0, 40.0]))
-        label = dict(m_breaks=brk, a_slopes=sl, nbins=nb_, N0=N0)
-        chk.note_distinct(label)
+        p_ok = None
         try:
-            p = emf.InitialBHPopulation.from_BHMF(brk, sl, nb_, -1.0, N0=N0, natal_kicks=False)
-        except Exception as e:  # noqa
-            wdmax = float(ifmr.IFMR(-1.0).WD_mf.upper)
-            chk.fail("a population can be built directly from any BH mass function", label, dict(error=type(e).__name__),
-                     first_break_above_wd=bool(brk[0] > wdmax))
-            continue
-        chk.count("from_BHMF built")
-        if abs(p.N.sum() - N0) > 1e-9 * N0:
-            chk.fail("from_BHMF: numbers sum to N0", label, float(p.N.sum()))
-        ed = np.r_[p.bins.lower, p.bins.upper[-1]]
-        if ed[0] != brk[0] or ed[-1] != brk[-1] or not all(np.any(ed == b) for b in brk) or len(p.N) != sum(nb_):
-            chk.fail("from_BHMF: bins have the requested edges", label, ed.tolist())
-        for kset in (dict(vesc=rng.choice([30, 90, 300])), dict(kick_method="sigmoid", kick_slope=rng.choice([0.4, 1.0]), kick_scale=rng.choice([10.0, 20.0])),
-                     dict(kick_method=rng.choice(["f12", "fryer2012"]), vesc=rng.choice([60, 150]))):
-            try:
-                pk = emf.InitialBHPopulation.from_BHMF(brk, sl, nb_, -1.0, N0=N0, natal_kicks=True, **kset)
-            except Exception as e:  # noqa
-                chk.fail("kicks only remove BHs, by exactly the reported kicked mass", dict(label, kicks=kset), dict(error=type(e).__name__, msg=str(e)[:80]))
-                continue
-            chk.count("from_BHMF with kicks (%s)" % kset.get("kick_method", "maxwellian"))
-            if np.any(pk.M > p.M * (1 + 1e-12)) or np.any(pk.N > p.N * (1 + 1e-12)) or abs((p.M.sum() - pk.M.sum()) - pk._kicked_M) > 1e-9 * max(p.M.sum(), 1e-300):
-                chk.fail("kicks only remove BHs, by exactly the reported kicked mass", dict(label, kicks=kset),
-                         dict(removed=float(p.M.sum() - pk.M.sum()), reported=float(pk._kicked_M)))
+            p_ok = emf.InitialBHPopulation.from_BHMF(brk, sl, nb_, -1.0, N0=N0, natal_kicks=False)   # (only decides whether kick options are drawn: the stream below is the one of the earlier versions)
+        except Exception:  # noqa
+            pass
+        ksets = () if p_ok is None else (
+            dict(vesc=rng.choice([30, 90, 300])), dict(kick_method="sigmoid", kick_slope=rng.choice([0.4, 1.0]), kick_scale=rng.choice([10.0, 20.0])),
+            dict(kick_method=rng.choice(["f12", "fryer2012"]), vesc=rng.choice([60, 150])))
+        one_bhmf(brk, sl, nb_, N0, ksets)
+    # fixed coverage points, present at every seed (they draw nothing from the generator): sparse populations in which several bins hold a non-zero
+    # number below the 0.1-object threshold of the kick routine, under each kick method
+    for brk, sl, nb_, N0 in (([5.0, 15.0, 60.0], [-1.0, -2.3], [8, 12], 1.0), ([3.0, 10.0, 45.0], [0.3, -2.8], [6, 14], 5.0),
+                             ([10.0, 25.0, 90.0], [-0.5, -1.5], [10, 10], 25.0)):
+        one_bhmf(brk, sl, nb_, N0, (dict(vesc=90), dict(vesc=300), dict(kick_method="sigmoid", kick_slope=1.0, kick_scale=20.0),
+                                    dict(kick_method="fryer2012", vesc=150)))
     chk.trusted += ["harness/props/C19.py (closure capture through a stand-in for scipy's ode)", "FloatFun", "translator gen_formulas.py"]
 
 
